@@ -148,11 +148,13 @@ def check_all(out, facts, cfg, floors=True):
             return
         out.floor('R11.1', 'decoding functions analysed [%s]' % cfg, n_fn, 60)
         out.floor('R11.2', 'heap-owning decoders [%s]' % cfg, len(heap_seen), 9)
-        # kernel: item path descends, bulk path does not decode generic children
-        kf = roles(facts).get('items')
+        # kernel: every element decoded by the item kernel is decoded under exactly one successful descend — decided on the
+        # kernel's entry point with its private helpers inlined, so it does not matter which of them holds the bracket
+        kf = roles(facts).get('with_len')
         if kf:
             t, v, ev = wire.infer_decoder_fn(facts, kf)
             bad = []
+            n_dec = 0
             for p in paths(t):
                 d = 0
                 for e in p:
@@ -160,12 +162,14 @@ def check_all(out, facts, cfg, floors=True):
                         d += 1
                     elif e[0] == 'ASC':
                         d -= 1
-                    elif e[0] == 'dec' and d < 1:
-                        bad.append('element decoded outside descend/ascend')
-                    elif e[0] == 'dec' and d > 1:
-                        bad.append('element decoded under %d descends' % d)
-            out.ob('R11.2', 'helper:items/descends [%s]' % cfg, not bad and any(e[0] == 'dec' for e in events(t)),
-                   '; '.join(set(bad)) or 'no element decode found', kf['loc'])
+                    elif e[0] == 'dec':
+                        n_dec += 1
+                        if d < 1:
+                            bad.append('element decoded outside descend/ascend')
+                        elif d > 1:
+                            bad.append('element decoded under %d descends' % d)
+            out.ob('R11.2', 'helper:items/descends [%s]' % cfg, not bad and n_dec > 0,
+                   '; '.join(sorted(set(bad))) or 'no element decode found', kf['loc'])
         else:
             out.fail('R11.2', 'helper:items [%s]' % cfg, 'kernel function not found (anchor missing)', '-')
 
